@@ -33,12 +33,17 @@ Definition digits_val (s : bytes) : N := digits_acc s 0.
 Definition pow10 (p : nat) : N := 10 ^ N.of_nat p.
 Definition U128 : N := 2 ^ 128.
 
-(* bytes.IndexByte(s, '.') *)
-Fixpoint index_dot (s : bytes) : option nat :=
+(* bytes.IndexByte(s, '.') together with the two slices the callers take around
+   that index: [split_dot s = (s[:p], Some s[p+1:])] when the first '.' is at index
+   p, and [(s, None)] when there is none. *)
+Fixpoint split_dot (s : bytes) : bytes * option bytes :=
   match s with
-  | [] => None
-  | c :: s' => if c =? 46 then Some O else option_map S (index_dot s')
+  | [] => ([], None)
+  | c :: s' => if c =? 46 then ([], Some s')
+               else let '(a, b) := split_dot s' in (c :: a, b)
   end.
+
+Definition is_nil {A} (l : list A) : bool := match l with [] => true | _ => false end.
 
 (* outcome of the 128-bit fast path *)
 Inductive ures := UOk (coef : N) (prec : nat) | UErr | UOverflow.
@@ -77,17 +82,16 @@ Definition digits_u128 (s : bytes) : ures :=
 
 (* parseLargeToU128 (ParseModeError is the default and filter.go never changes it) *)
 Definition parse_large (s : bytes) : ures :=
-  let l := length s in
-  match index_dot s with
-  | None => digits_u128 s
-  | Some pos =>
-      if Nat.eqb pos 0 || Nat.eqb pos (l - 1) then UErr
+  match split_dot s with
+  | (_, None) => digits_u128 s
+  | (i, Some f) =>
+      if is_nil i || is_nil f then UErr               (* pos == 0 || pos == l-1 *)
       else
-        let prec := (l - pos - 1)%nat in
+        let prec := length f in                       (* l - pos - 1 *)
         if Nat.ltb 19 prec then UErr
-        else match digits_u128 (firstn pos s) with
+        else match digits_u128 i with
              | UOk ip _ =>
-                 match digits_u128 (skipn (S pos) s) with
+                 match digits_u128 f with
                  | UOk fp _ =>
                      let c := ip * pow10 prec + fp in
                      if c <? U128 then UOk c prec else UOverflow
@@ -99,38 +103,53 @@ Definition parse_large (s : bytes) : ures :=
 
 (* parseBintFromU128: returns (neg, outcome) *)
 Definition parse_u128 (s : bytes) : bool * ures :=
-  let '(neg, pos) :=
-    match s with
-    | 45 :: _ => (true, 1%nat)
-    | 43 :: _ => (false, 1%nat)
-    | _ => (false, 0%nat)
-    end in
   match s with
-  | 46 :: _ => (false, UErr)
-  | _ =>
-      let rest := skipn pos s in
-      match rest with
-      | [] => (neg, UErr)                      (* "+" or "-" *)
-      | 46 :: _ => (neg, UErr)                 (* "-.5" *)
-      | _ => if Nat.leb (length rest) 19 then (neg, parse_small rest)
-             else (neg, parse_large rest)
-      end
+  | [] => (false, UErr)
+  | c0 :: s1 =>
+      if c0 =? 46 then (false, UErr)
+      else
+        let neg := c0 =? 45 in
+        let rest := if (c0 =? 45) || (c0 =? 43) then s1 else s in     (* s[pos:] *)
+        match rest with
+        | [] => (neg, UErr)                                            (* "+" or "-" *)
+        | c :: _ =>
+            if c =? 46 then (neg, UErr)                                (* "-.5" *)
+            else if Nat.leb (length rest) 19 then (neg, parse_small rest)
+            else (neg, parse_large rest)
+        end
   end.
 
-(* (*big.Int).SetString(s, 10): optional single sign, then one or more ASCII
+(* big.Int SetString(s, 10): optional single sign, then one or more ASCII
    digits, nothing else (no underscores, no prefixes for an explicit base). *)
 Definition set_string (s : bytes) : option Z :=
   let '(neg, ds) :=
     match s with
-    | 43 :: r => (false, r)
-    | 45 :: r => (true, r)
-    | _ => (false, s)
+    | [] => (false, s)
+    | c :: r => if c =? 43 then (false, r) else if c =? 45 then (true, r) else (false, s)
     end in
-  match ds with
-  | [] => None
-  | _ => if all_digits ds
-         then Some (if neg then (- Z.of_N (digits_val ds))%Z else Z.of_N (digits_val ds))
-         else None
+  if is_nil ds then None
+  else if all_digits ds
+       then Some (if neg then (- Z.of_N (digits_val ds))%Z else Z.of_N (digits_val ds))
+       else None.
+
+(* the part of the big.Int fallback that works on [value]: locate the '.', splice it
+   out, SetString *)
+Definition big_core (value : bytes) : option (Z * nat) :=
+  let r :=
+    match split_dot value with
+    | (_, None) => Some (value, 0%nat)
+    | (i, Some f) =>
+        if is_nil i || is_nil f then None             (* pIndex == 0 || pIndex >= vLen-1 *)
+        else if Nat.ltb 19 (length f) then None       (* ErrPrecOutOfRange *)
+        else Some (i ++ f, length f)
+    end in
+  match r with
+  | None => None
+  | Some (istr, prec) =>
+      match set_string istr with
+      | None => None
+      | Some z => Some (z, prec)
+      end
   end.
 
 (* the big.Int fallback of parseBint; note that only a leading '-' is removed from
@@ -138,35 +157,22 @@ Definition set_string (s : bytes) : option Z :=
 Definition parse_big (s : bytes) : option (bool * N * nat) :=
   match s with
   | [] => None
-  | 46 :: _ => None
   | c0 :: s1 =>
-      let '(neg, value, pos) :=
-        if c0 =? 45 then (true, s1, 1%nat)
-        else if c0 =? 43 then (false, s, 1%nat)
-        else (false, s, 0%nat) in
-      match skipn pos s with
-      | [] => None
-      | 46 :: _ => None
-      | _ =>
-          let vlen := length value in
-          let r :=
-            match index_dot value with
-            | None => Some (value, 0%nat)
-            | Some p =>
-                if Nat.eqb p 0 || Nat.leb (vlen - 1) p then None
-                else let prec := (vlen - p - 1)%nat in
-                     if Nat.ltb 19 prec then None
-                     else Some (firstn p value ++ skipn (S p) value, prec)
-            end in
-          match r with
-          | None => None
-          | Some (istr, prec) =>
-              match set_string istr with
-              | None => None
-              | Some z => if (z <? 0)%Z then None else Some (neg, Z.to_N z, prec)
-              end
-          end
-      end
+      if c0 =? 46 then None
+      else
+        let neg := c0 =? 45 in
+        let value := if c0 =? 45 then s1 else s in
+        let rest := if (c0 =? 45) || (c0 =? 43) then s1 else s in     (* s[pos:] *)
+        match rest with
+        | [] => None
+        | c :: _ =>
+            if c =? 46 then None
+            else match big_core value with
+                 | None => None
+                 | Some (z, prec) =>
+                     if (z <? 0)%Z then None else Some (neg, Z.to_N z, prec)
+                 end
+        end
   end.
 
 Record dec := mkDec { d_neg : bool; d_coef : N; d_prec : nat }.
